@@ -843,7 +843,10 @@ class Model():
 
         # Reconstruct the associations
         for assoc_entry in serialized_object.get('associations', []):
-            assoc = list(assoc_entry.keys())[0]
+            # The entry can also contain the optional 'extras' and a YAML
+            # file lists the keys in alphabetical order, so the association
+            # name is not necessarily the first key
+            assoc = next(key for key in assoc_entry.keys() if key != 'extras')
             assoc_fields = assoc_entry[assoc]
             association = getattr(model.lang_classes_factory.ns, assoc)()
 
